@@ -623,6 +623,14 @@ func inferPatterns(body, v string) []string {
 			if a.list == nil && a.atom == v {
 				direct = true
 			}
+			// v plus an offset: (+ off v)
+			if len(a.list) == 3 && a.list[0].atom == "+" && head == "select" {
+				for _, b := range a.list[1:] {
+					if b.list == nil && b.atom == v {
+						direct = true
+					}
+				}
+			}
 		}
 		arith := map[string]bool{"+": true, "-": true, "*": true, "<": true, "<=": true, ">": true, ">=": true, "=": true, "and": true, "or": true, "not": true, "=>": true, "ite": true, "div": true, "mod": true, "distinct": true}
 		if direct && head != "" && !arith[head] && !strings.HasPrefix(head, "(") {
